@@ -34,7 +34,7 @@ func init() {
 			"one P makes sync.Pool hand the same object back unless the gc fault fired; episodes where reuse could not be verified count as trivial",
 			"data races between a handler that kept a context and its next user are not covered (serialised execution)",
 		},
-		RequiredProbes: []string{"probe-same-conn", "probe-new-conn", "reuse-verified", "outcome-ok", "outcome-panic", "outcome-malformed", "outcome-toolarge", "outcome-rst-body", "outcome-close", "outcome-hijack-write-error", "outcome-write-error", "acquire-roundtrip", "mutators-run", "probe-unmatched", "outcome-chunked-writer", "outcome-stream-close-error", "probe-chunked-writer", "gc", "response-default-options"},
+		RequiredProbes: []string{"probe-same-conn", "probe-new-conn", "reuse-verified", "outcome-ok", "outcome-panic", "outcome-malformed", "outcome-toolarge", "outcome-rst-body", "outcome-close", "outcome-hijack-write-error", "outcome-write-error", "acquire-roundtrip", "mutators-run", "probe-unmatched", "outcome-chunked-writer", "outcome-stream-close-error", "probe-chunked-writer", "gc", "response-default-options", "copy-kept"},
 	}
 }
 
@@ -49,7 +49,7 @@ var c09Deny = map[string]bool{
 	"CopyTo": true, "CopyToSkipBody": true, "InitBufValue": true, "InitContentLengthWithValue": true, "SetRawHeaders": true, "SetProtocol": true, "SetNoHTTP11": true,
 	"File": true, "FileAttachment": true, "FileFromFS": true, "SaveUploadedFile": true, "HTML": true, "Render": true, "Redirect": true,
 	"SetHeaderLength": true, "Parse": true, "ParseBytes": true, "Update": true, "UpdateBytes": true, "VisitAll": true, "VisitAllCookie": true, "VisitAllCustomHeader": true,
-	"SetByteRange": true, "SetNoDefaultContentType": true, "SetNoDefaultDate": true, "DisableNormalizing": true, "SetMultipartFormBoundary": true,
+	"SetByteRange": true, "SetNoDefaultContentType": true, "SetNoDefaultDate": true, "SetMultipartFormBoundary": true,
 	"MustGet": true, "BindAndValidate": true, "Bind": true, "Validate": true, "BindQuery": true, "BindHeader": true, "BindPath": true, "BindForm": true, "BindJSON": true, "BindProtobuf": true, "BindByContentType": true,
 	"SetStatusCode": false,
 }
@@ -284,6 +284,26 @@ func dumpCtx(ctx *app.RequestContext) []string {
 	ctx.PostArgs().VisitAll(func(k, v []byte) { out = append(out, fmt.Sprintf("pargs.VisitAll %q=%q", k, v)) })
 	ctx.Request.Header.Trailer().VisitAll(func(k, v []byte) { out = append(out, fmt.Sprintf("reqtrailer %q=%q", k, v)) })
 	ctx.Response.Header.Trailer().VisitAll(func(k, v []byte) { out = append(out, fmt.Sprintf("resptrailer %q=%q", k, v)) })
+	// what the setters do with a lower-case name depends on normalisation flags a reset has to restore
+	for i, tr := range []*protocol.Trailer{ctx.Request.Header.Trailer(), ctx.Response.Header.Trailer()} {
+		if err := tr.Set("x-probe-trailer", "tv"); err == nil {
+			tr.VisitAll(func(k, v []byte) { out = append(out, fmt.Sprintf("trailer%d after Set %q=%q", i, k, v)) })
+			tr.Del("x-probe-trailer")
+			tr.Del("X-Probe-Trailer")
+		}
+	}
+	ctx.Request.Header.Set("x-probe-lower", "v")
+	ctx.Request.Header.VisitAll(func(k, v []byte) { out = append(out, fmt.Sprintf("reqh after Set %q=%q", k, v)) })
+	ctx.Request.Header.Del("x-probe-lower")
+	ctx.Request.Header.Del("X-Probe-Lower")
+	ctx.Response.Header.Set("x-probe-lower", "v")
+	ctx.Response.Header.VisitAll(func(k, v []byte) {
+		if string(k) != "Date" {
+			out = append(out, fmt.Sprintf("resph after Set %q=%q", k, v))
+		}
+	})
+	ctx.Response.Header.Del("x-probe-lower")
+	ctx.Response.Header.Del("X-Probe-Lower")
 	out = append(out, fmt.Sprintf("Params=%v Keys=%d Errors=%d IsAborted=%v FullPath=%q Index=%d", ctx.Params, len(ctx.Keys), len(ctx.Errors), ctx.IsAborted(), ctx.FullPath(), ctx.GetIndex()))
 	var keys []string
 	ctx.ForEachKey(func(k string, v interface{}) { keys = append(keys, k) })
@@ -316,6 +336,7 @@ func RunC09(ep *core.Episode) {
 	if probeStyle == 1 {
 		ep.Probe("probe-chunked-writer")
 	}
+	var beforeProbe func()
 	mkEngine := func(name string, prog func(ctx *app.RequestContext), dump *[]string, ctxPtr **app.RequestContext) (*Srv, *core.Net) {
 		nw := core.NewNet(ep)
 		srv := NewSrv(ep, nw, SrvOpts{BufSize: 4096, MaxBody: 3000, Stream: stream, Configure: func(o *config.Options) {
@@ -332,6 +353,9 @@ func RunC09(ep *core.Episode) {
 		})
 		probeH := func(c context.Context, ctx *app.RequestContext) {
 			*ctxPtr = ctx
+			if name == "dirty" && beforeProbe != nil {
+				beforeProbe()
+			}
 			*dump = dumpCtx(ctx)
 			ctx.SetStatusCode(200)
 			switch probeStyle {
@@ -376,7 +400,11 @@ func RunC09(ep *core.Episode) {
 	}
 
 	// ---- dirtying history ----
-	nd := 1 + tp.Choose("ndirty", 3)
+	// 3..5: the same history lengths, and every dirtying handler keeps a ctx.Copy() that is written to while the probe runs
+	ndv := tp.Choose("ndirty", 6)
+	nd := 1 + ndv%3
+	keepCopy := ndv >= 3
+	var savedCopies []*app.RequestContext
 	outcomes := []string{"ok", "ok", "ok", "panic", "malformed", "toolarge", "rst-body", "fin-header", "close", "abort", "write-error", "hijack", "hijack-write-error", "chunked-writer", "stream-close-error"}
 	var dirtyCtx *app.RequestContext
 	var ranMutators []string
@@ -452,6 +480,13 @@ func RunC09(ep *core.Episode) {
 		for _, op := range progs[d] {
 			op(ctx)
 		}
+		if keepCopy {
+			func() {
+				defer func() { recover() }() // a context some mutator left in a state Copy cannot handle: not this property's business
+				savedCopies = append(savedCopies, ctx.Copy())
+				ep.Probe("copy-kept")
+			}()
+		}
 		ctx.Set("dirty-key", d)
 		ctx.Error(fmt.Errorf("dirty err"))
 		switch ocs[d] {
@@ -488,6 +523,12 @@ func RunC09(ep *core.Episode) {
 		}
 	}, &dDump, &probeCtx)
 
+	beforeProbe = func() {
+		// the owner of a copy taken during an earlier request edits its copy while the recycled context serves the probe
+		for _, c := range savedCopies {
+			c09Scribble(c)
+		}
+	}
 	conn := srv.Connect("d1")
 	dirtyConn = conn
 	cl := NewClient(ep, conn)
@@ -629,6 +670,38 @@ func RunC09(ep *core.Episode) {
 	c09Acquire(ep, tp)
 	ep.Nontrivial = reused && len(ranMutators) > 0
 	ep.Sample = map[string]interface{}{"outcomes": ocs, "mutators": tailStr(ranMutators, 12), "probe_on_same_connection": sameConn, "context_reuse_verified": reused, "getters_compared": len(refDump)}
+}
+
+// c09Scribble overwrites, through the public setters, every header field, cookie and argument of a context copy
+// with a value of the same length (so the bytes are rewritten in place if the copy shares memory with anything).
+func c09Scribble(c *app.RequestContext) {
+	defer func() { recover() }()
+	z := func(v []byte) string { return strings.Repeat("Z", len(v)) }
+	var kvs [][2]string
+	c.Request.Header.VisitAll(func(k, v []byte) { kvs = append(kvs, [2]string{string(k), z(v)}) })
+	for _, kv := range kvs {
+		c.Request.Header.Set(kv[0], kv[1])
+	}
+	kvs = nil
+	c.Request.Header.VisitAllCookie(func(k, v []byte) { kvs = append(kvs, [2]string{string(k), z(v)}) })
+	for _, kv := range kvs {
+		c.Request.Header.SetCookie(kv[0], kv[1])
+	}
+	kvs = nil
+	c.Response.Header.VisitAll(func(k, v []byte) { kvs = append(kvs, [2]string{string(k), z(v)}) })
+	for _, kv := range kvs {
+		c.Response.Header.Set(kv[0], kv[1])
+	}
+	for _, a := range []*protocol.Args{c.QueryArgs(), c.PostArgs()} {
+		kvs = nil
+		a.VisitAll(func(k, v []byte) { kvs = append(kvs, [2]string{string(k), z(v)}) })
+		for _, kv := range kvs {
+			a.Set(kv[0], kv[1])
+		}
+	}
+	c.Request.SetBody([]byte(z(c.Request.Body())))
+	c.Response.SetBody([]byte(z(c.Response.Body())))
+	c.Request.URI().SetPath("/" + z(c.Request.URI().Path()))
 }
 
 // failCloser is a body stream whose Close reports an error.
